@@ -35,10 +35,12 @@ class LV:
     def __repr__(self): return f'LV({self.e})'
 
 
+ACTIVE = None          # the engine of the lane exploration in progress (set by explore)
+
+
 def _branch(cond):
-    from . import engine
-    if engine.ENG is None or not hasattr(engine.ENG, 'log'): raise RuntimeError('data-dependent control flow on lane values outside an exploration')
-    return engine.ENG.branch(cond)
+    if ACTIVE is None: raise RuntimeError('data-dependent control flow on lane values outside an exploration')
+    return ACTIVE.branch(cond)
 
 
 def bv(x):
@@ -99,6 +101,7 @@ class Q:
 
     def __init__(self, rep, timeout_ms=120000, eng=None):
         self.rep = rep
+        if eng is None: eng = ACTIVE
         if eng is not None: self.s = eng.solver              # queries are decided under the current path condition of the exploration
         else:
             self.s = z3.Solver()
@@ -129,8 +132,25 @@ def model_bytes(model, ins):
 def explore(fn, rep):
     """run fn(eng) once per feasible path of the code under test (normally exactly one); data-dependent branches on lane values fork"""
     from .engine import Engine, EngineUnknown
+    global ACTIVE
     eng = Engine(timeout_ms=120000, max_paths=256, deadline_s=60)
+    prev, ACTIVE = ACTIVE, eng
     try: eng.explore(fn)
     except EngineUnknown as e: rep.note(f'lane exploration not covered: {e} (data-dependent control flow multiplies paths; the unmodified simulators have exactly one)')
+    finally: ACTIVE = prev
     rep.counts['lane_paths'] += eng.npaths
     return eng
+
+
+def pathwise(job):
+    """decorator for a job function (args -> Report) that runs LogicSim on lane values: the job is executed once per path of the code
+    under test (exactly one for the unmodified simulators) and the reports of all paths are merged"""
+    import functools
+    from . import common
+
+    @functools.wraps(job)
+    def wrapper(*a, **k):
+        out = common.Report()
+        explore(lambda eng: out.merge(job(*a, **k)) and None, out)
+        return out
+    return wrapper
